@@ -1053,6 +1053,17 @@ void process_option_line(const std::string &config_line, const char *filename,
       auto       this_line_number = cpd.line_number;
       const auto &include_path    = args[1];
 
+      // a file that (directly or indirectly) includes itself would recurse until the stack overflows
+      static int include_depth = 0;
+
+      if (include_depth >= 32)
+      {
+         OptionWarning w{ filename };
+         w("include: nested too deeply (recursive include?), ignoring '%s'", include_path.c_str());
+         return;
+      }
+      ++include_depth;
+
       if (include_path.empty())
       {
          OptionWarning w{ filename };
@@ -1071,6 +1082,7 @@ void process_option_line(const std::string &config_line, const char *filename,
          // include is an absolute path
          UNUSED(load_option_file(include_path.c_str(), compat_level));
       }
+      --include_depth;
       cpd.line_number = this_line_number;
    }
 #endif
